@@ -15,13 +15,12 @@ def incrementValidate (inc : Int) (dividend : Int) (inclusive : Bool) : Out Unit
   else if dividend % inc ≠ 0 then .err .range
   else .ok ()
 
-/-- `Unit::to_maximum_rounding_increment`; `Auto` hits `unreachable!()`. -/
+/-- `Unit::to_maximum_rounding_increment` (after the fix: `Auto` has no maximum instead of `unreachable!()`). -/
 def TUnit.maxRoundingIncrement : TUnit → Out (Option Int)
-  | .year | .month | .week | .day => .ok none
+  | .year | .month | .week | .day | .auto => .ok none
   | .hour => .ok (some 24)
   | .minute | .second => .ok (some 60)
   | .millisecond | .microsecond | .nanosecond => .ok (some 1000)
-  | .auto => .panic
 
 inductive UnitGroup where | date | time | dateTime
   deriving DecidableEq, Repr
@@ -32,12 +31,15 @@ def UnitGroup.validateUnit (g : UnitGroup) (unit extra : Option TUnit) : Out Uni
   | .date =>
     match unit with
     | none => .ok ()
-    | some u => if !u.isTimeUnit then .ok () else if unit = extra then .ok () else .err .range
+    | some u => if u.isDateUnit then .ok () else if unit = extra then .ok () else .err .range
   | .time =>
     match unit with
     | none => .ok ()
     | some u => if u.isTimeUnit then .ok () else if unit = extra then .ok () else .err .range
-  | .dateTime => .ok ()
+  | .dateTime =>
+    match unit with
+    | some .auto => if extra = some .auto then .ok () else .err .range
+    | _ => .ok ()
 
 /-- `UnitGroup::validate_required_unit` -/
 def UnitGroup.validateRequiredUnit (g : UnitGroup) (unit extra : Option TUnit) : Out TUnit :=
@@ -92,5 +94,86 @@ def fromDatetimeOptions (o : RawOptions) : Out Resolved := do
       | none => .err .range)
   incrementValidate increment maximum inclusive
   pure { largest := .auto, smallest, increment, mode }
+
+/-- `if let Some(max) = smallest_unit.to_maximum_rounding_increment() { increment.validate(max, false)? }` -/
+def checkIncrement (smallest : TUnit) (increment : Int) : Out Unit := do
+  let maximum ← smallest.maxRoundingIncrement
+  match maximum with
+  | some max => incrementValidate increment max false
+  | none => pure ()
+
+/-- `Option<Unit>::unwrap_unit_or` -/
+def unwrapUnitOr (u : Option TUnit) (d : TUnit) : TUnit :=
+  match u with
+  | some .auto => d
+  | some x => x
+  | none => d
+
+/-- `ResolvedRoundingOptions::from_diff_settings(options, operation, unit_group, fallback_largest, fallback_smallest)` -/
+def fromDiffSettings (o : RawOptions) (since : Bool) (g : UnitGroup) (fallbackLargest fallbackSmallest : TUnit) :
+    Out Resolved := do
+  g.validateUnit o.largest (some .auto)
+  let increment := o.increment.getD 1
+  let mode := if since then (o.mode.getD .trunc).negate else o.mode.getD .trunc
+  g.validateUnit o.smallest none
+  let smallest := o.smallest.getD fallbackSmallest
+  let largest := unwrapUnitOr o.largest (smallest.max fallbackLargest)
+  if largest < smallest then .err .range else do
+  checkIncrement smallest increment
+  pure { largest, smallest, increment, mode }
+
+/-- `ResolvedRoundingOptions::from_duration_options(options, existing_largest)` -/
+def fromDurationOptions (o : RawOptions) (existingLargest : TUnit) : Out Resolved := do
+  if o.largest.isNone && o.smallest.isNone then .err .range else do
+  let increment := o.increment.getD 1
+  let mode := o.mode.getD .halfExpand
+  UnitGroup.dateTime.validateUnit o.largest (some .auto)
+  UnitGroup.dateTime.validateUnit o.smallest none
+  let smallest := o.smallest.getD .nanosecond
+  let defaultLargest := existingLargest.max smallest
+  let largest := unwrapUnitOr o.largest defaultLargest  -- `Some(Auto) | None => default, Some(u) => u`
+  if largest < smallest then .err .range else do
+  checkIncrement smallest increment
+  pure { largest, smallest, increment, mode }
+
+/-- `Precision` of src/parsers.rs -/
+inductive Precision where
+  | auto | minute | digit (d : Nat)
+  deriving DecidableEq, Repr
+
+def Precision.render : Precision → String
+  | .auto => "auto" | .minute => "minute" | .digit d => toString d
+
+structure ResolvedToString where
+  precision : Precision
+  smallest : TUnit
+  mode : RMode
+  increment : Int
+  deriving DecidableEq, Repr
+
+def ResolvedToString.render (r : ResolvedToString) : String :=
+  s!"{r.precision.render} {r.smallest.name} {r.mode.name} {r.increment}"
+
+/-- `ToStringRoundingOptions::resolve` (digit is a `u8`). -/
+def toStringResolve (precision : Precision) (smallest : Option TUnit) (mode : Option RMode) :
+    Out ResolvedToString :=
+  let mode := mode.getD .trunc
+  match smallest with
+  | some .minute => .ok ⟨.minute, .minute, mode, 1⟩
+  | some .second => .ok ⟨.digit 0, .second, mode, 1⟩
+  | some .millisecond => .ok ⟨.digit 3, .millisecond, mode, 1⟩
+  | some .microsecond => .ok ⟨.digit 6, .microsecond, mode, 1⟩
+  | some .nanosecond => .ok ⟨.digit 9, .nanosecond, mode, 1⟩
+  | none =>
+    match precision with
+    | .auto => .ok ⟨.auto, .nanosecond, mode, 1⟩
+    | .digit 0 => .ok ⟨.digit 0, .second, mode, 1⟩
+    | .digit d =>
+      if 1 ≤ d ∧ d ≤ 3 then .ok ⟨.digit d, .millisecond, mode, 10 ^ (3 - d)⟩
+      else if 4 ≤ d ∧ d ≤ 6 then .ok ⟨.digit d, .microsecond, mode, 10 ^ (6 - d)⟩
+      else if 7 ≤ d ∧ d ≤ 9 then .ok ⟨.digit d, .nanosecond, mode, 10 ^ (9 - d)⟩
+      else .err .range
+    | .minute => .err .range
+  | some _ => .err .range
 
 end TemporalModel
